@@ -22,7 +22,15 @@ Clauses of the property and where they are proved, for every route, tree, geomet
    `tree_output_order_independent`);
  * the attached identifiers are the stored ones (`uuid_attached_are_stored`, `uuid_error_iff`,
    `uuid_never_panics`, `response_uuids_are_stored`, `response_ids_and_counts`);
- * the summary counts are the sizes of what is rendered (`summary_counts`, `summary_counts_single`).
+ * the summary counts are the sizes of what is rendered (`summary_counts`, `summary_counts_single`,
+   `summary_process_on_object`);
+ * the lookup tables are the files, row for row, or the build fails — malformed rows are never skipped
+   (`geometry_file_loads_all_rows_or_fails`, `geometry_file_bad_row_is_error`, `traversal_from_file_table`,
+   `uuid_from_file_table`, `uuid_from_file_error_iff`), the builders accept exactly the five format names
+   (`format_names_roundtrip`, `format_names_distinct`, `format_param`, `build_traversal_ok`, `build_uuid_ok`);
+ * direct `process` calls: untouched after a failed search, equal to the pipeline model on an object, panic only
+   on a non-object that is written to (`failed_search_leaves_output`, `traversal_process_on_object`,
+   `traversal_process_on_panic`, `summary_process_on_panic_iff`, `add_od_uuids_result`).
 No defect of the code against C20 was found, so there is no `_counterexample` theorem.  Two behaviours outside the
 literal statement are recorded as theorems because they turn a whole response into an error response:
 `empty_route_is_error_response` (origin = destination with a route format configured) and the uuid plugin's
@@ -643,7 +651,11 @@ theorem traversal_process_renders_every_route (cfg : TraversalCfg) (res : Search
       · intro hemp; rw [hemp] at hl; simp at hl
       · cases hg : generateRouteOutput cfg.geoms f res.routes[i] with
         | error x => simp [hg] at hc
-        | ok o => simp only [hg] at hc; exact hc
+        | ok o =>
+          simp only [hg] at hc
+          by_cases hlt : e.state.length < res.costSlots
+          · simp [hlt] at hc
+          · simpa [hlt] using hc
   · intro f hf
     obtain ⟨outs, hm, ho⟩ := c f hf
     exact ⟨outs, ho, mapExcept_ok_length _ _ _ hm, fun i ht hi => mapExcept_ok_get _ _ _ hm i ht hi⟩
@@ -658,7 +670,7 @@ theorem response_route_is_rendering (req : Json) (res : SearchResult) (plugins :
         res.routes[i] ≠ [] ∧ generateRouteOutput cfg.geoms f res.routes[i] = .ok sh.toList[i] := by
   let P : Resp → Prop := fun r => ∀ sh, r.route = some sh →
     ∃ cfg f outs, Plugin.traversal cfg ∈ plugins ∧ cfg.route = some f ∧
-      mapExcept (constructRouteOutput cfg.geoms f) res.routes = .ok outs ∧ sh = shape outs
+      mapExcept (constructRouteOutput res.costSlots cfg.geoms f) res.routes = .ok outs ∧ sh = shape outs
   have hstep : ∀ p ∈ plugins, ∀ r r', P r → pluginStep req res p r = .ok r' → P r' := by
     intro p hp r r' hP hq sh' hs'
     cases p with
@@ -695,7 +707,11 @@ theorem response_route_is_rendering (req : Json) (res : SearchResult) (plugins :
       · intro hemp; rw [hemp] at hl; simp at hl
       · cases hg : generateRouteOutput cfg.geoms f res.routes[i] with
         | error x => simp [hg] at hc
-        | ok o => simp only [hg] at hc; exact hc
+        | ok o =>
+          simp only [hg] at hc
+          by_cases hlt : e.state.length < res.costSlots
+          · simp [hlt] at hc
+          · simpa [hlt] using hc
 
 /-- the same for `tree`: one rendered tree per returned tree -/
 theorem response_tree_is_rendering (req : Json) (res : SearchResult) (plugins : List Plugin) (resp : Resp)
@@ -783,7 +799,7 @@ theorem response_error_on_missing_geometry (req : Json) (res : SearchResult) (pl
     (ht : t ∈ rt) (hm : cfg.geoms t.edge = none) :
     ∃ x, applyOutputProcessing req (some res) plugins = .error x := by
   obtain ⟨i, hi, rfl⟩ := List.getElem_of_mem ht
-  have h1 : ∃ x, constructRouteOutput cfg.geoms f rt = .error x := by
+  have h1 : ∃ x, constructRouteOutput res.costSlots cfg.geoms f rt = .error x := by
     unfold constructRouteOutput
     cases rt.getLast? with
     | none => exact ⟨_, rfl⟩
@@ -810,7 +826,7 @@ theorem response_error_on_missing_tree_geometry (req : Json) (res : SearchResult
     | none => simp only [hf, hx]; exact ⟨_, rfl⟩
     | some fr =>
       simp only
-      cases hm : mapExcept (constructRouteOutput cfg.geoms fr) res.routes with
+      cases hm : mapExcept (constructRouteOutput res.costSlots cfg.geoms fr) res.routes with
       | error y => exact ⟨_, rfl⟩
       | ok outs => simp only [hf, hx]; exact ⟨_, rfl⟩
   exact runPlugins_error_of_mem req res _ {} h2 plugins hp {}
@@ -837,7 +853,7 @@ format configured the response is an error response in *every* format -/
 theorem empty_route_is_error_response (req : Json) (res : SearchResult) (plugins : List Plugin)
     (cfg : TraversalCfg) (hp : Plugin.traversal cfg ∈ plugins) (f : Fmt) (hf : cfg.route = some f)
     (hrt : [] ∈ res.routes) : ∃ x, applyOutputProcessing req (some res) plugins = .error x := by
-  obtain ⟨x, hx⟩ := mapExcept_error_of_mem (constructRouteOutput cfg.geoms f) res.routes [] hrt ⟨_, rfl⟩
+  obtain ⟨x, hx⟩ := mapExcept_error_of_mem (constructRouteOutput res.costSlots cfg.geoms f) res.routes [] hrt ⟨_, rfl⟩
   have h2 : ∃ y, pluginStep req res (.traversal cfg) {} = .error y := by
     simp only [pluginStep, traversalProcess, hf, hx]
     exact ⟨_, rfl⟩
@@ -917,6 +933,352 @@ example : ∃ x, applyOutputProcessing .null
       (some { routes := [[⟨1, 0, 0, []⟩, ⟨2, 0, 0, []⟩, ⟨0, 0, 0, []⟩]], trees := [] })
       [.summary, .traversal { geoms := tableOf [[⟨1, 2⟩, ⟨3, 4⟩], [⟨5, 6⟩, ⟨7, 8⟩]], route := some .geoJson, tree := none }]
       = .error x := ⟨_, rfl⟩
+
+/-! ### 7. loading the lookup tables: every row in its place, or no table at all -/
+
+/-- the geometry reader returns a table exactly when the file opens, decodes to its end and every row parses;
+the table then holds **every** row at its own index — a bad row is never skipped, so geometries never shift
+against edge ids -/
+theorem geometry_file_loads_all_rows_or_fails (f : TableFile GeomRow) (ls : List Line) :
+    readLinestringTextFile f = .ok ls ↔ (f.readable = true ∧ f.intact = true ∧ f.rows = ls.map some) := by
+  unfold readLinestringTextFile
+  cases hr : f.readable with
+  | false => simp
+  | true =>
+    cases hp : parseRows f.rows with
+    | error x =>
+      have : ¬ f.rows = ls.map some := fun h => by
+        rw [(parseRows_ok_iff f.rows ls).2 h] at hp; cases hp
+      simp [this]
+    | ok ls' =>
+      have h1 := (parseRows_ok_iff f.rows ls').1 hp
+      cases hi : f.intact with
+      | false => simp
+      | true =>
+        simp only [Bool.not_true, Bool.false_eq_true, if_false, if_true, true_and]
+        constructor
+        · intro h; injection h with h; subst h; exact h1
+        · intro h
+          rw [h1] at h
+          have : ls' = ls := some_map_inj ls' ls h
+          rw [this]
+
+/-- any row the WKT parser rejects (blank line, other geometry type, quoted or CSV-prefixed text …), a file that
+cannot be opened, or a byte stream that breaks off: the reader fails, and the plugin is not built -/
+theorem geometry_file_bad_row_is_error (f : TableFile GeomRow) (route tree : Option Fmt)
+    (h : f.readable = false ∨ f.intact = false ∨ none ∈ f.rows) :
+    readLinestringTextFile f = .error .io ∧ traversalFromFile f route tree = .error .build := by
+  have h1 : readLinestringTextFile f = .error .io := by
+    unfold readLinestringTextFile
+    cases hr : f.readable with
+    | false => simp
+    | true =>
+      cases hp : parseRows f.rows with
+      | error x => simp [parseRows_error_kind f.rows x hp]
+      | ok ls =>
+        rcases h with h | h | h
+        · rw [hr] at h; cases h
+        · simp [h]
+        · rw [parseRows_error_of_mem f.rows h] at hp; cases hp
+  exact ⟨h1, by simp [traversalFromFile, h1]⟩
+
+/-- the plugin built from a file: row `e` of the file is the geometry of edge `e`, ids at or beyond the number of
+rows have no geometry (the plugin never learns the number of edges: a short file shows up as missing rows, extra
+rows are never looked at), and the configured formats are kept -/
+theorem traversal_from_file_table (f : TableFile GeomRow) (route tree : Option Fmt) (cfg : TraversalCfg)
+    (h : traversalFromFile f route tree = .ok cfg) :
+    cfg.route = route ∧ cfg.tree = tree ∧ ∀ e, cfg.geoms e = (f.rows[e]?).bind id := by
+  unfold traversalFromFile at h
+  cases hr : readLinestringTextFile f with
+  | error x => simp [hr] at h
+  | ok ls =>
+    simp only [hr] at h
+    injection h with h
+    subst h
+    obtain ⟨_, _, hrows⟩ := (geometry_file_loads_all_rows_or_fails f ls).1 hr
+    refine ⟨rfl, rfl, ?_⟩
+    intro e
+    simp only [tableOf, hrows, List.getElem?_map]
+    cases ls[e]? <;> rfl
+
+/-- the identifier file is taken row by row, verbatim -/
+theorem uuid_from_file_table (f : TableFile String) (u : Uuids) (h : uuidFromFile f = .ok u) :
+    f.readable = true ∧ f.intact = true ∧ ∀ i, u i = f.rows[i]? := by
+  unfold uuidFromFile at h
+  cases hr : f.readable <;> cases hi : f.intact <;> simp [hr, hi] at h
+  subst h
+  exact ⟨rfl, rfl, fun _ => rfl⟩
+
+theorem uuid_from_file_error_iff (f : TableFile String) :
+    uuidFromFile f = .error .build ↔ (f.readable = false ∨ f.intact = false) := by
+  unfold uuidFromFile
+  cases f.readable <;> cases f.intact <;> simp
+
+/-- `parse_wkb_linestring` returns a linestring only for a linestring -/
+theorem parse_wkb_linestring_ok_iff (r : WkbRow) (l : Line) :
+    (∃ l', parseWkbLinestring r = .ok l' ∧ l' = l) ↔ r = .linestring l := by
+  cases r <;> simp [parseWkbLinestring]
+
+/-- modelled behaviour of an unused public helper (reported, not a clause of C20): it hands the bytes of the text
+row to the WKB decoder undecoded, so a hex-encoded row (first byte `'0'`) or an unknown geometry type panics inside
+the `wkb` crate instead of giving the `InvalidData` error -/
+theorem parse_wkb_linestring_panics_iff (r : WkbRow) :
+    (match parseWkbLinestring r with | .panic => True | _ => False) ↔ (r = .badByteOrder ∨ r = .unknownType) := by
+  cases r <;> simp [parseWkbLinestring]
+
+example : readLinestringTextFile { readable := true, intact := true, rows := [some [⟨1, 2⟩], none, some [⟨3, 4⟩]] } =
+    .error .io := rfl
+example : (traversalFromFile { readable := true, intact := true, rows := [some [⟨1, 2⟩], some [⟨3, 4⟩]] }
+    (some .wkt) none).toOption.map (fun c => (c.geoms 1, c.geoms 2)) = some (some [⟨3, 4⟩], none) := rfl
+
+/-! ### 8. the configuration builders -/
+
+/-- the five configuration names denote the five formats, one each -/
+theorem format_names_roundtrip (f : Fmt) :
+    Fmt.ofName? f.name = some f ∧ fmtParam (some (.str f.name)) = .ok (some f) := by
+  have h1 : Fmt.ofName? f.name = some f := by cases f <;> decide
+  exact ⟨h1, by simp [fmtParam, h1]⟩
+
+theorem format_names_distinct (f g : Fmt) (h : f.name = g.name) : f = g := by
+  have hf := (format_names_roundtrip f).1
+  have hg := (format_names_roundtrip g).1
+  rw [h] at hf
+  rw [hf] at hg
+  exact Option.some.inj hg
+
+/-- an absent key means "do not render"; a present key must be one of the five names -/
+theorem format_param (v : Option Json) (o : Option Fmt) (h : fmtParam v = .ok o) :
+    (v = none ∧ o = none) ∨ ∃ f, v = some (.str f.name) ∧ o = some f := by
+  unfold fmtParam at h
+  cases v with
+  | none => injection h with h; exact Or.inl ⟨rfl, h.symm⟩
+  | some j =>
+    cases j with
+    | str s =>
+      simp only at h
+      cases hn : Fmt.ofName? s with
+      | none => simp [hn] at h
+      | some f =>
+        simp only [hn] at h
+        injection h with h
+        have hs : f.name = s := by
+          unfold Fmt.ofName? at hn
+          have := List.find?_some hn
+          simpa using this
+        exact Or.inr ⟨f, by rw [hs], h.symm⟩
+    | null => simp at h
+    | bool b => simp at h
+    | num l b => simp at h
+    | arr xs => simp at h
+    | obj kvs => simp at h
+
+/-- a traversal plugin is built only from an existing file whose every row parses and from known format names; it
+then is exactly the plugin `from_file` gives for those formats (so `traversal_from_file_table` applies) -/
+theorem build_traversal_ok (file : FileParam GeomRow) (route tree : Option Json) (cfg : TraversalCfg)
+    (h : buildTraversal file route tree = .ok cfg) :
+    ∃ f, file = .file f ∧ f.readable = true ∧ fmtParam route = .ok cfg.route ∧ fmtParam tree = .ok cfg.tree ∧
+      traversalFromFile f cfg.route cfg.tree = .ok cfg := by
+  unfold buildTraversal at h
+  cases file with
+  | absent => simp [filePath] at h
+  | notString => simp [filePath] at h
+  | noSuchFile => simp [filePath] at h
+  | file f =>
+    simp only [filePath] at h
+    cases hr : f.readable with
+    | false => simp [hr] at h
+    | true =>
+      simp only [hr, if_true] at h
+      cases h1 : fmtParam route with
+      | error e => simp [h1] at h
+      | ok r =>
+        simp only [h1] at h
+        cases h2 : fmtParam tree with
+        | error e => simp [h2] at h
+        | ok t =>
+          simp only [h2] at h
+          cases h3 : traversalFromFile f r t with
+          | error e => simp [h3] at h
+          | ok c =>
+            simp only [h3] at h
+            injection h with h
+            subst h
+            obtain ⟨a, b, _⟩ := traversal_from_file_table f r t c h3
+            refine ⟨f, rfl, hr, ?_, ?_, ?_⟩
+            · rw [a]
+            · rw [b]
+            · rw [a, b]; exact h3
+
+theorem build_uuid_ok (file : FileParam String) (u : Uuids) (h : buildUuid file = .ok u) :
+    ∃ f, file = .file f ∧ ∀ i, u i = f.rows[i]? := by
+  unfold buildUuid at h
+  cases file with
+  | absent => simp [filePath] at h
+  | notString => simp [filePath] at h
+  | noSuchFile => simp [filePath] at h
+  | file f =>
+    simp only [filePath] at h
+    cases hr : f.readable with
+    | false => simp [hr] at h
+    | true =>
+      simp only [hr, if_true] at h
+      cases h3 : uuidFromFile f with
+      | error e => simp [h3] at h
+      | ok c =>
+        simp only [h3] at h
+        injection h with h
+        subst h
+        exact ⟨f, rfl, (uuid_from_file_table f c h3).2.2⟩
+
+example : ((buildTraversal (.file { readable := true, intact := true, rows := [some [⟨1, 2⟩]] })
+    (some (.str "geo_json")) none).toOption.map (fun c => (c.route, c.tree))) = some (some .geoJson, none) := by
+  decide
+example : (buildTraversal (.file { readable := true, intact := true, rows := [some [⟨1, 2⟩]] })
+    (some .null) none).toOption.isNone = true := by decide
+
+/-! ### 9. the plugins called directly on a JSON output -/
+
+/-- after a failed search every plugin leaves the output alone -/
+theorem failed_search_leaves_output (cfg : TraversalCfg) (a : Bool) (u : Uuids) (out : Json) :
+    (match traversalProcessOn cfg none a with | .ok none => True | _ => False) ∧
+    (match summaryProcessOn none out with | .ok j => j = out | _ => False) ∧
+    (match uuidProcess u false out with | .ok j => j = out | _ => False) := by
+  simp [traversalProcessOn, summaryProcessOn, uuidProcess]
+
+/-- on an object (or `null`) the direct call does what the pipeline model does, for every combination of
+configured route / tree formats -/
+theorem traversal_process_on_object (cfg : TraversalCfg) (sr : SearchResult) :
+    traversalProcessOn cfg (some sr) true =
+      match traversalProcess cfg sr {} with
+      | .ok r => .ok (some r)
+      | .error x => .err x := by
+  unfold traversalProcessOn traversalProcess
+  cases hr : cfg.route with
+  | none =>
+    cases ht : cfg.tree with
+    | none => simp
+    | some ft =>
+      simp only
+      cases mapExcept (generateTreeOutput cfg.geoms ft) sr.trees <;> first | rfl | simp
+  | some fr =>
+    simp only
+    cases mapExcept (constructRouteOutput sr.costSlots cfg.geoms fr) sr.routes with
+    | error x => simp
+    | ok outs =>
+      cases ht : cfg.tree with
+      | none => simp
+      | some ft =>
+        simp only [if_true]
+        cases mapExcept (generateTreeOutput cfg.geoms ft) sr.trees <;> first | rfl | simp
+
+/-- the index-assignment panic needs an output that is neither an object nor `null` **and** something to write:
+`apply_output_processing` only ever passes an object, so it is unreachable from the application -/
+theorem traversal_process_on_panic (cfg : TraversalCfg) (res : Option SearchResult) (a : Bool)
+    (h : match traversalProcessOn cfg res a with | .panic => True | _ => False) :
+    a = false ∧ (cfg.route.isSome = true ∨ cfg.tree.isSome = true) := by
+  cases a with
+  | true =>
+    cases res with
+    | none => simp [traversalProcessOn] at h
+    | some sr =>
+      rw [traversal_process_on_object] at h
+      cases ht : traversalProcess cfg sr {} with
+      | ok r => rw [ht] at h; exact h.elim
+      | error x => rw [ht] at h; exact h.elim
+  | false =>
+    refine ⟨rfl, ?_⟩
+    cases hr : cfg.route with
+    | some f => simp
+    | none =>
+      cases ht : cfg.tree with
+      | some f => simp
+      | none =>
+        cases res with
+        | none => simp [traversalProcessOn] at h
+        | some sr => simp [traversalProcessOn, hr, ht] at h
+
+/-- `SummaryOutputPlugin::process` on an object: the two counts are the sizes of the routes and trees, and no key
+other than its own six is touched -/
+theorem summary_process_on_object (sr : SearchResult) (si : SummaryInput) (kvs : List (String × Json)) :
+    ∃ kvs', summaryProcessOn (some (sr, si)) (.obj kvs) = .ok (.obj kvs') ∧
+      Json.lookup kvs' "route_edges" = some (jnat ((sr.routes.map List.length).sum)) ∧
+      Json.lookup kvs' "tree_size_count" = some (jnat ((sr.trees.map List.length).sum)) ∧
+      ∀ k, k ∉ ["search_executed_time", "search_runtime", "route_edges", "tree_size_count",
+                "search_result_size_mib", "iterations"] → Json.lookup kvs' k = Json.lookup kvs k := by
+  refine ⟨_, by simp [summaryProcessOn, assignAll, Json.indexAssign]; rfl, ?_, ?_, ?_⟩
+  · rw [lookup_insertKv_other _ _ _ _ (by decide), lookup_insertKv_other _ _ _ _ (by decide),
+      lookup_insertKv_other _ _ _ _ (by decide), lookup_insertKv_same]
+    rfl
+  · rw [lookup_insertKv_other _ _ _ _ (by decide), lookup_insertKv_other _ _ _ _ (by decide),
+      lookup_insertKv_same]
+    rfl
+  · intro k hk
+    simp only [List.mem_cons, List.not_mem_nil, or_false, not_or] at hk
+    obtain ⟨h1, h2, h3, h4, h5, h6⟩ := hk
+    rw [lookup_insertKv_other _ _ _ _ h6, lookup_insertKv_other _ _ _ _ h5, lookup_insertKv_other _ _ _ _ h4,
+      lookup_insertKv_other _ _ _ _ h3, lookup_insertKv_other _ _ _ _ h2, lookup_insertKv_other _ _ _ _ h1]
+
+/-- the summary plugin panics exactly on an output that is neither an object nor `null` (after a successful
+search); unreachable from `apply_output_processing` -/
+theorem summary_process_on_panic_iff (sr : SearchResult) (si : SummaryInput) (out : Json) :
+    (match summaryProcessOn (some (sr, si)) out with | .panic => True | _ => False) ↔
+      (out.isObject = false ∧ out.isNull = false) := by
+  cases out <;> simp [summaryProcessOn, assignAll, Json.indexAssign, Json.isObject, Json.isNull]
+
+/-- `add_od_uuids` (public helper): the two identifiers are written into the request object, everything else —
+other request fields, other output keys, key order — stays -/
+theorem add_od_uuids_result (out out' : Json) (ou du : String) (h : addOdUuids out ou du = .ok out') :
+    ∃ kvs rq rq', out = .obj kvs ∧ Json.lookup kvs "request" = some (.obj rq) ∧
+      out' = .obj (replaceKv kvs "request" (.obj rq')) ∧
+      Json.lookup (replaceKv kvs "request" (.obj rq')) "request" = some (.obj rq') ∧
+      Json.lookup rq' "origin_vertex_uuid" = some (.str ou) ∧
+      Json.lookup rq' "destination_vertex_uuid" = some (.str du) ∧
+      (∀ k, k ≠ "origin_vertex_uuid" → k ≠ "destination_vertex_uuid" → Json.lookup rq' k = Json.lookup rq k) ∧
+      (∀ k, k ≠ "request" → Json.lookup (replaceKv kvs "request" (.obj rq')) k = Json.lookup kvs k) := by
+  unfold addOdUuids at h
+  cases out with
+  | obj kvs =>
+    simp only at h
+    cases hl : Json.lookup kvs "request" with
+    | none => simp [hl] at h
+    | some r =>
+      cases r with
+      | obj rq =>
+        simp only [hl] at h
+        injection h with h
+        refine ⟨kvs, rq, _, rfl, hl, h.symm, lookup_replaceKv_same kvs _ _ _ hl, ?_, ?_, ?_, ?_⟩
+        · rw [lookup_insertKv_other _ _ _ _ (by decide), lookup_insertKv_same]
+        · rw [lookup_insertKv_same]
+        · intro k h1 h2
+          rw [lookup_insertKv_other _ _ _ _ h2, lookup_insertKv_other _ _ _ _ h1]
+        · intro k hk
+          exact lookup_replaceKv_other kvs _ _ _ hk
+      | null => simp [hl] at h
+      | bool b => simp [hl] at h
+      | num l b => simp [hl] at h
+      | str s => simp [hl] at h
+      | arr xs => simp [hl] at h
+  | null => simp at h
+  | bool b => simp at h
+  | num l b => simp at h
+  | str s => simp at h
+  | arr xs => simp at h
+
+/-- `get_route_geometry_wkt` (unused public helper) succeeds exactly on a string stored under `route` -/
+theorem get_route_geometry_wkt_ok_iff (out : Json) (w : String) :
+    getRouteGeometryWkt out = .ok w ↔ out.get? "route" = some (.str w) := by
+  unfold getRouteGeometryWkt
+  cases h : out.get? "route" with
+  | none => simp
+  | some j => cases j <;> simp
+
+example : summaryProcessOn (some ({ routes := [[⟨1, 0, 0, []⟩, ⟨0, 0, 0, []⟩]], trees := [] },
+      { executedTime := "t", runtime := "0:00:00.000", iterations := 3 })) .null =
+    .ok (.obj [("search_executed_time", .str "t"), ("search_runtime", .str "0:00:00.000"), ("route_edges", jnat 2),
+      ("tree_size_count", jnat 0), ("search_result_size_mib", .null), ("iterations", jnat 3)]) := by
+  simp [summaryProcessOn, assignAll, Json.indexAssign, Json.insertKv, routeEdgesCount, treeSizeCount]
+example : (match traversalProcessOn { geoms := tableOf [], route := some .edgeId, tree := none }
+      (some { routes := [[⟨0, 0, 0, []⟩]], trees := [] }) false with | .panic => true | _ => false) = true := rfl
 
 end C20
 end Compass
